@@ -8,7 +8,7 @@ from .c04 import judge
 
 IMPORTS = ('From OFV Require Import Base.Cplx Sem.PauliSem Model.SymbolicOp Model.QubitOp Model.LadderOp Model.JordanWigner Model.Predicates '
            'Model.LCU Check.OpEquiv Check.OneNorm.\n')
-NEEDS = ['Thm/C19/Alias', 'Check/OneNorm']
+NEEDS = ['Thm/C19/Alias', 'Thm/C19/AliasF', 'Check/OneNorm']
 def cZl(l): return '(' + clist([cZ(int(x)) for x in l]) + ' : list Z)'
 
 def rand_eri(rng, n):
